@@ -111,7 +111,7 @@ TraceFrame ==
 \* the recorder lists the messages up to the third bad one and counts the rest (Flood)
 SkipRead ==
     /\ run.flood /\ nread >= run.nf /\ wire # <<>>
-    /\ ClientRead /\ nread' = nread + 1 /\ UNCHANGED <<l, run, lastDb>>
+    /\ ClientRead /\ Silent
 
 TraceFlood == Is("Flood") /\ nread >= run.nf /\ Consume /\ Keep /\ UNCHANGED vars
 
@@ -146,10 +146,18 @@ TraceEnd ==
     /\ Consume /\ Keep /\ UNCHANGED vars
 
 \* ---- silent steps
+\* a second passes (the clock itself is not tracked here: To comes from the Query events)
+TickFlags ==
+    /\ (spc \notin {"none", "term"} /\ ~svcTick) \/ (hpc = "select" /\ ~pingTick)
+    /\ svcTick' = (spc \notin {"none", "term"})
+    /\ pingTick' = (hpc = "select")
+    /\ UNCHANGED <<now, store, req, status, client, hpc, rpc, dpc, spc, from, buf, chClosed, wdone, cancelled,
+                   vcached, wire, stale, fault, sent, cls, delivered, flags, late, used>>
+
 NeedVersion == Is("Version") /\ spc = "version"
 SilentStep ==
     /\ run.n # 0
-    /\ \/ (~svcTick \/ ~pingTick) /\ Tick
+    /\ \/ TickFlags
        \/ STick \/ SVersion("cached") \/ SVersion("ctx") \/ SDone \/ SExit
        \/ (NeedVersion /\ VExpire)
        \/ SQuery(now, "ctx", {})
